@@ -481,12 +481,16 @@ def propose(rng, w, focus, opw=None):
             m = pick(mts)
             if not base or not mt_ok(m): continue
             return dict(op="madd_single", m=m, k=rng.choice(KEYS), x=pick(base))
+        def other_for(m):
+            # prefer a second MultiTensor with a key that m lacks (the branch that stores / clones an element)
+            more = [n for n in mts if set(w.objs[n]._dict) - set(w.objs[m]._dict)]
+            return rng.choice(more) if more and rng.random() < 0.6 else rng.choice(mts)
         if op in ("miadd", "misub", "mmax", "mallclose"):
-            m = pick(mts); n = rng.choice(mts)
+            m = pick(mts); n = other_for(m)
             if not (mt_ok(m) and mt_ok(n)): continue
             return dict(op=op, m=m, n=n)
         if op == "mcopy":
-            m = pick(mts); n = rng.choice(mts)
+            m = pick(mts); n = other_for(m)
             if not mt_ok(n): continue
             # elements of m that share a storage with the corresponding element of n in a different view: unspecified in torch
             bad = False
@@ -525,7 +529,9 @@ def gen_sequence(rng, length):
         except Skip:
             continue
         except Exception as e:
-            raise RuntimeError("unexpected %r in operation %r after %r (shape %r)" % (e, a, ops, shape)) from e
+            # the model predicts no exception here (the modelled ones are caught inside execute)
+            crash = dict(exception=repr(e)[:300], operation=a, after=[{k: v for k, v in o.items() if k != "on_clone"} for o in ops], shape=list(shape))
+            return shape, ops, steps, excs + [crash]
         obs = w.observe()
         a = dict(a); a["res"] = list(range(n0, len(w.objs)))
         tgt = a.get("dst", a.get("m", a.get("x"))) if a["op"] in MUTATING else None
